@@ -56,7 +56,11 @@ func onlyEq(s *world.Sel) bool {
 	}
 	n := len(s.ML)
 	for _, e := range s.ME {
-		if e.Op == "In" && len(e.Vals) == 1 {
+		distinct := map[string]bool{}
+		for _, v := range e.Vals {
+			distinct[v] = true
+		}
+		if e.Op == "In" && len(distinct) == 1 { // a repeated value is still one value (the tool reads the values as a set)
 			n++
 		} else {
 			return false
@@ -146,6 +150,53 @@ func genExposureWorld(g *rng.R, allowUnusedNs bool) *world.World {
 			w.NetPols[i].Egress = append(w.NetPols[i].Egress, rule)
 		}
 		w.AddFeature("nearMissPeer")
+	}
+	// namespace-name operators: a rule selecting namespaces by an expression over kubernetes.io/metadata.name (NotIn / two-valued In /
+	// Exists / DoesNotExist) next to an own-namespace rule (nil namespaceSelector) of a policy living in the named namespace
+	if g.P(0.25) && len(w.Workloads) > 0 && len(w.NetPols) > 0 {
+		x := rng.Pick(g, w.Workloads)
+		ingress := g.P(0.5)
+		var podSel *world.Sel
+		switch g.Intn(3) {
+		case 0:
+			podSel = &world.Sel{}
+		case 1:
+			podSel = world.GenSel(g, w, true, 0)
+		}
+		req := world.Req{Key: world.MetaName, Op: rng.Pick(g, []string{"NotIn", "NotIn", "In", "Exists", "DoesNotExist"})}
+		switch req.Op {
+		case "NotIn":
+			req.Vals = []string{x.Ns}
+			if g.P(0.3) {
+				req.Vals = append(req.Vals, rng.Pick(g, world.NsNames))
+			}
+		case "In":
+			req.Vals = []string{x.Ns, rng.Pick(g, world.NsNames)}
+		}
+		sort.Strings(req.Vals)
+		port := world.NPPort{Port: rng.Pick(g, world.PortNums)}
+		add := func(np *world.NetPol, rule world.NPRule) {
+			if ingress {
+				np.Ingress = append(np.Ingress, rule)
+			} else {
+				np.Egress = append(np.Egress, rule)
+				if np.HasTypes && !np.HasDirection(false) {
+					np.PolicyTypes = append(np.PolicyTypes, "Egress")
+				}
+			}
+		}
+		add(&w.NetPols[g.Intn(len(w.NetPols))], world.NPRule{Peers: []world.NPPeer{{PodSel: podSel, NsSel: &world.Sel{ME: []world.Req{req}}}}, Ports: []world.NPPort{port}})
+		own := world.NetPol{Ns: x.Ns, Name: "own-ns-" + x.Name, PodSel: world.Sel{}}
+		ownPod := podSel
+		if ownPod == nil || g.P(0.5) {
+			ownPod = &world.Sel{}
+		}
+		add(&own, world.NPRule{Peers: []world.NPPeer{{PodSel: ownPod}}, Ports: []world.NPPort{{Port: rng.Pick(g, world.PortNums)}}})
+		if !ingress {
+			own.HasTypes, own.PolicyTypes = true, []string{"Egress"}
+		}
+		w.NetPols = append(w.NetPols, own)
+		w.AddFeature("nsNameOperator")
 	}
 	if len(pool) > 1 {
 		for k := g.Intn(3); k > 0; k-- {
